@@ -360,12 +360,13 @@ def exec_scenario(sc, wd, plan=None, keep=False, real_lli=False, restart=False, 
                   trace=trace_path, clock=(10**12, 1000), pid=sc.get("sim_pid", 4242) + (1 if second else 0), hold=hold)
     stdout_kind = sc.get("stdout_kind", "pipe")
     argv = [a.replace("{WD}", wd) for a in argv_of(sc)]     # absolute input paths are written {WD}/... in scenarios
+    cwd = os.path.join(wd, sc["cwd"]) if sc.get("cwd") else wd      # (the tool may be started in a sub-directory)
     try:
         if stdout_kind == "pipe":
-            r = run_proc(argv, wd, env)
+            r = run_proc(argv, cwd, env)
         else:
             # real-OS reporting faults: stdout is /dev/full (every write ENOSPC) or closed
-            r = run_proc(argv, wd, env, stdout_kind=stdout_kind)
+            r = run_proc(argv, cwd, env, stdout_kind=stdout_kind)
     finally:
         for f in feeders:
             f.stop()
@@ -373,7 +374,7 @@ def exec_scenario(sc, wd, plan=None, keep=False, real_lli=False, restart=False, 
     obs = {"status": r.status(), "rc": r.rc, "sig": r.sig, "timeout": r.timeout, "out": r.out, "err": r.err, "trace": trace,
            "artefacts": {}, "marker": [], "stdin": {}, "wd": wd}
     if sc["out_dir"]:
-        od = os.path.join(wd, sc["out_dir"])
+        od = os.path.join(cwd, sc["out_dir"])
         if os.path.isdir(od):
             for dp, _d, names in sorted(os.walk(od)):
                 for n in sorted(names):
@@ -814,7 +815,8 @@ def script_grid():
 FS_VARIANTS = ["artefact_is_directory", "artefact_symlink_to_devfull", "out_dir_through_regular_file", "source_is_directory",
                "source_symlink_loop", "stdout_devfull", "stdout_closed", "config_is_directory",
                "silent_stdout_devfull", "silent_verbose_stdout_devfull", "silent_stdout_closed",
-               "absolute_input", "colliding_artefact_names", "env_backend_not_utf8", "source_is_fifo", "config_is_fifo"]
+               "absolute_input", "colliding_artefact_names", "env_backend_not_utf8", "source_is_fifo", "config_is_fifo",
+               "dotdot_input_collides"]
 
 
 def _fs_variant_job(args):
@@ -878,6 +880,17 @@ def _fs_variant_job(args):
         sc["modules"] = list(sc["inputs"])
         sc["locate_by_module_id"] = True
         sc["may_refuse"] = True     # a refusal (exit 1 with a message) is as faithful as two artefacts
+        expect_fail = None
+    elif variant == "dotdot_input_collides":
+        # started in app/: `../lib/util.pn` and `lib/util.pn` are two files with one place below the out-dir
+        a = pngen.generate(rng, n_funcs=2)
+        sc["files"] = {"app/main.pn": a.single_file().encode(), "lib/util.pn": pngen.extra_module(rng, prefix="p").encode(),
+                       "app/lib/util.pn": pngen.extra_module(rng, prefix="q").encode()}
+        sc["cwd"] = "app"
+        sc["inputs"] = ["main.pn", "../lib/util.pn", "lib/util.pn"] if idx % 2 else ["main.pn", "lib/util.pn", "../lib/util.pn"]
+        sc["modules"] = list(sc["inputs"])
+        sc["locate_by_module_id"] = True
+        sc["may_refuse"] = True
         expect_fail = None
     elif variant == "source_is_fifo":
         # a source that arrives through a named pipe is the same source
